@@ -343,7 +343,15 @@ class C14(DiffProperty):
     technique = "Coq refinement proof (pointer heap -> ordered forests) + differential correspondence check"
     assumptions = ["malloc succeeds", "callers insert only unlinked nodes and never below themselves (guards of the history language)"]
 
-    harness_args = ("3",)   # per-case timeout in seconds (a cyclic list makes the library loop for ever)
+    harness_args = ("10",)   # per-case timeout in seconds (a cyclic list makes the library loop for ever)
+
+    def run(self, tier, seed, replay=None):
+        # LeakSanitizer's stop-the-world scan after the clean-up: every case in the quick tier,
+        # every 4th case in the (much larger, heavily parallel) thorough tier
+        env = dict(vcheck.ASAN_LEAK_ENV)
+        env["C14_LSAN_EVERY"] = "1" if tier == "quick" or replay else "4"
+        self.harness_env = env
+        return DiffProperty.run(self, tier, seed, replay=replay)
 
     def split(self, case):
         return [], split_ops(case)
